@@ -25,7 +25,7 @@ func (c *Case) ID() string {
 	return fmt.Sprintf("%s[%s] fault=%s@%d", c.Wrapper, c.Nodes, c.Fault, c.At)
 }
 
-var wrappers = []string{"flat", "for", "if", "with", "autoescape", "ifchanged", "spaceless", "filter", "filter-length", "for-filter-length", "include", "include-lazy", "macro", "extends", "for-include", "ssi-parsed", "for-empty", "for-reversed", "ifequal", "block", "import-macro", "if-elif", "extends-own-options", "extends-2-own-options", "macro-reads-set", "ifchanged-gap", "for-macro-reads-loop"}
+var wrappers = []string{"flat", "for", "if", "with", "autoescape", "ifchanged", "spaceless", "filter", "filter-length", "for-filter-length", "include", "include-lazy", "macro", "extends", "for-include", "ssi-parsed", "for-empty", "for-reversed", "ifequal", "block", "import-macro", "if-elif", "extends-own-options", "extends-2-own-options", "macro-reads-set", "ifchanged-gap", "for-macro-reads-loop", "with-swap"}
 
 // build returns the file set, the name of the entry file and the expected fault-free output.
 func build(wrapper, nodes string) (files map[string]string, expected string, ticks int) {
@@ -90,6 +90,10 @@ func build(wrapper, nodes string) (files map[string]string, expected string, tic
 	case "with":
 		files["/main"] = "<{% with a=1 %}" + b + "{% endwith %}>"
 		expected = "<" + render() + ">"
+	case "with-swap":
+		// every pair refers to a name another pair of the same tag binds: all of them see the surrounding scope
+		files["/main"] = "<{% with p=q q=r r=p %}{{ p }}{{ q }}{{ r }}" + b + "{% endwith %}{{ p }}>"
+		expected = "<231" + render() + "1>"
 	case "autoescape":
 		files["/main"] = "{% autoescape off %}" + b + "{% endautoescape %}"
 		expected = render()
@@ -209,6 +213,14 @@ type stringWriter struct {
 func (w *stringWriter) Write(p []byte) (int, error)       { w.calls++; return w.b.Write(p) }
 func (w *stringWriter) WriteString(s string) (int, error) { w.calls++; return w.b.WriteString(s) }
 
+// embedWriter embeds a bytes.Buffer (and so inherits WriteString, WriteByte, ...) but overrides Write
+type embedWriter struct {
+	bytes.Buffer
+	seen []byte
+}
+
+func (w *embedWriter) Write(p []byte) (int, error) { w.seen = append(w.seen, p...); return len(p), nil }
+
 func key0(c *Case, s string) string { return s + ":" + c.Wrapper + ":" + c.Fault }
 
 func (c *Case) Exec(t *eng.T) {
@@ -235,7 +247,7 @@ func (c *Case) Exec(t *eng.T) {
 	mkctx = func() pongo2.Context {
 		n := 0
 		return pongo2.Context{
-			"two": []int{1, 2}, "yes": true, "incname": "inc", "gap": []int{1, 0, 1},
+			"two": []int{1, 2}, "yes": true, "incname": "inc", "gap": []int{1, 0, 1}, "p": 1, "q": 2, "r": 3,
 			"tick": func() (*pongo2.Value, error) {
 				n++
 				if c.Fault == "tick" && n == c.At {
@@ -320,6 +332,31 @@ func (c *Case) Exec(t *eng.T) {
 			t.Fail(key0(c, "partial-write:stringwriter"), "%s: ExecuteWriter wrote %q (%d calls) to a caller writer offering WriteString although execution failed", c.ID(), sw.b.String(), sw.calls)
 		case !wantFail && (err != nil || sw.b.String() != expected):
 			t.Fail(key0(c, "wrong-output:stringwriter"), "%s: ExecuteWriter(writer with WriteString) gave %q, %v; want %q", c.ID(), sw.b.String(), err, expected)
+		}
+	}
+	// a caller's writer that embeds a *bytes.Buffer and overrides Write only (a counting / transforming writer): all
+	// output has to go through its Write, on both writer entry points
+	for _, unbuffered := range []bool{false, true} {
+		ew := &embedWriter{}
+		var err error
+		name := "ExecuteWriter"
+		if unbuffered {
+			name = "ExecuteWriterUnbuffered"
+			err = fresh().ExecuteWriterUnbuffered(mkctx(), ew)
+		} else {
+			err = fresh().ExecuteWriter(mkctx(), ew)
+		}
+		switch {
+		case ew.Buffer.Len() != 0:
+			t.Fail(key0(c, "bypassed-write:"+name), "%s: %s wrote %q past the Write method of a caller writer that embeds a bytes.Buffer", c.ID(), name, head(ew.Buffer.String()))
+		case wantFail && err == nil:
+			t.Fail(key0(c, "error-lost"), "%s: %s(embedding writer) returns no error although execution fails", c.ID(), name)
+		case wantFail && !unbuffered && len(ew.seen) != 0:
+			t.Fail(key0(c, "partial-write:embedding"), "%s: ExecuteWriter wrote %q although execution failed", c.ID(), head(string(ew.seen)))
+		case wantFail && unbuffered && !strings.HasPrefix(expected, string(ew.seen)):
+			t.Fail(key0(c, "not-a-prefix:embedding"), "%s: ExecuteWriterUnbuffered wrote %q, not a leading part of %q", c.ID(), head(string(ew.seen)), head(expected))
+		case !wantFail && (err != nil || string(ew.seen) != expected):
+			t.Fail(key0(c, "wrong-output:embedding:"+name), "%s: %s(embedding writer) gave %q, %v; want %q", c.ID(), name, head(string(ew.seen)), err, head(expected))
 		}
 	}
 	// the four entry points one after the other on ONE compiled template (fault-free runs): still the same bytes
